@@ -13,8 +13,11 @@ package main
 
 import (
 	"bytes"
+	"context"
 	"errors"
 	"fmt"
+	"github.com/TarsCloud/TarsGo/tars/protocol/res/requestf"
+	"github.com/TarsCloud/TarsGo/tars/util/current"
 	"os"
 	"os/exec"
 	"runtime"
@@ -23,6 +26,7 @@ import (
 	"sync"
 	"sync/atomic"
 	"time"
+	"verif/netlab"
 
 	"github.com/TarsCloud/TarsGo/tars"
 	"github.com/TarsCloud/TarsGo/tars/util/rogger"
@@ -144,11 +148,15 @@ var (
 func logEntry(spec trialSpec, g, i int) {
 	tok := token(spec.Trial, g, i)
 	if spec.Formatted {
-		switch i % 3 {
+		switch i % 5 {
 		case 0:
 			lg.Errorf("entry %s payload=%d", tok, i)
 		case 1:
 			lg.Info("entry ", tok)
+		case 2:
+			lg.Trace("trace " + tok) // its own path to the queue (no level, own buffer)
+		case 3:
+			lg.Debug("debug ", tok)
 		default:
 			lg.Warnf("%s", tok)
 		}
@@ -212,6 +220,49 @@ func occupancyTrial(spec trialSpec) {
 	judge(spec, rec.snapshot(), d)
 	rogger.VerifResetFlush()
 	run.Eval(1)
+}
+
+// doubleFlushTrial: a second FlushLogger arrives while the first one is still draining (the writer
+// is gated).  The second caller, too, may return only when everything logged before its request
+// has been written — a process that exits after "its" flush returned relies on that.
+func doubleFlushTrial(spec trialSpec) {
+	rec.reset()
+	gate := make(chan struct{})
+	rec.gate.Store(&gate)
+	total := spec.Occupancy + 1
+	spec.Goroutines, spec.PerG = 1, total
+	spec.Kind = fmt.Sprintf("second-overlapping-flush-%d", spec.Occupancy)
+	for i := 0; i < total; i++ {
+		logEntry(spec, 0, i)
+	}
+	first := make(chan struct{})
+	go func() { rogger.FlushLogger(); close(first) }()
+	for !rogger.VerifFlushRequested() {
+		runtime.Gosched()
+	}
+	second := make(chan struct{})
+	go func() { rogger.FlushLogger(); close(second) }()
+	// the writer is still gated: nothing can have been written completely, so neither flush may be back
+	early := false
+	select {
+	case <-second:
+		early = true
+	case <-time.After(30 * time.Millisecond):
+	}
+	written := len(rec.snapshot())
+	rec.gate.Store(nil)
+	close(gate)
+	<-first
+	<-second
+	run.Eval(1)
+	if early && written < total {
+		run.Violation("flush-returned-before-entries-written", "second-overlapping-flush", fmt.Sprintf("a FlushLogger call made while an earlier flush was still draining returned with %d of %d entries written (the writer was still blocked)", written, total),
+			map[string]interface{}{"trial": spec, "entries_logged_before_both_flushes": total, "entries_written_when_second_flush_returned": written})
+		rogger.VerifResetFlush()
+		return
+	}
+	judge(spec, rec.snapshot(), time.Millisecond)
+	rogger.VerifResetFlush()
 }
 
 // forcedTrial: hold the flusher between its two selects, log the last entry, request the flush,
@@ -340,6 +391,13 @@ func childMain(mode string) {
 		}
 		rogger.FlushLogger()
 		os.Exit(0)
+	case "panic-in-dispatch":
+		// the panic comes from a servant's dispatcher, through the real Protocol.Invoke: that is
+		// where a server's panics really come from
+		p := tars.VerifNewApp().NewProtocol(panicDispatch{l: l, k: k}, nil, true)
+		frame := (&netlab.Request{Version: 1, RequestID: 7, Servant: "Verif.C20.Obj", Func: "boom", Timeout: 0}).Encode()
+		_ = p.Invoke(current.ContextWithTarsCurrent(context.Background()), frame)
+		os.Exit(9) // Invoke's panic handling should have exited
 	default:
 		func() {
 			defer tars.CheckPanic()
@@ -360,6 +418,18 @@ func childMain(mode string) {
 		}()
 		os.Exit(9) // CheckPanic should have exited
 	}
+}
+
+type panicDispatch struct {
+	l *rogger.Logger
+	k int
+}
+
+func (d panicDispatch) Dispatch(ctx context.Context, imp interface{}, req *requestf.RequestPacket, rsp *requestf.ResponsePacket, wc bool) error {
+	for i := 0; i < d.k; i++ {
+		d.l.WriteLog([]byte(fmt.Sprintf("<T0-g0-%d>\n", i)))
+	}
+	panic("boom in dispatch")
 }
 
 func childTrial(mode string, k, delayUs, warmMs, idx int) {
@@ -423,7 +493,7 @@ func main() {
 		return
 	}
 	run = vlib.Start("C20")
-	run.SetRule("in-process trials (flush re-armed by hook): natural (G in {1,4,32} goroutines x per-goroutine entries x raw/formatted x swept pause), forced (flusher held between its two selects while the last entry and the flush request arrive), occupancy (0,1,100,9999 entries queued at the flush request), overflow (more entries than the queue holds, gated writer); child processes: flush after >1 s process age with a slow writer, panic exit through CheckPanic with string/error/struct/runtime-error values, and with the stack dump file uncreatable (argv[0] under /proc). A case is a trial; distinct = distinct (kind, parameters, recorded write count) keys.")
+	run.SetRule("in-process trials (flush re-armed by hook): natural (G in {1,4,32} goroutines x per-goroutine entries x raw/formatted x swept pause), forced (flusher held between its two selects while the last entry and the flush request arrive), occupancy (0,1,100,9999 entries queued at the flush request), overflow (more entries than the queue holds, gated writer); child processes: flush after >1 s process age with a slow writer, panic exit through CheckPanic with string/error/struct/runtime-error values, with the stack dump file uncreatable (argv[0] under /proc), and with the panic raised by a dispatcher under the real Protocol.Invoke; a second FlushLogger overlapping a draining one. A case is a trial; distinct = distinct (kind, parameters, recorded write count) keys.")
 	run.Assume("an entry counts as 'logged before the flush' when its logging call returned before FlushLogger was called (barrier in the harness)")
 	run.Assume("a flush that takes >= the flush timeout (1 s) is not judged (inconclusive)")
 	rogger.SetLevel(rogger.DEBUG)
@@ -467,6 +537,11 @@ func main() {
 			run.Distinct(fmt.Sprintf("occupancy|%d|%d", occ, rep))
 		}
 	}
+	for rep := 0; rep < run.Pick(6, 60); rep++ {
+		trial++
+		doubleFlushTrial(trialSpec{Kind: "second-overlapping-flush", Occupancy: []int{1, 20, 150}[rep%3], Trial: trial, Formatted: rep%2 == 1})
+		run.Distinct(fmt.Sprintf("doubleflush|%d|%d", rep%3, rep%2))
+	}
 	for rep := 0; rep < run.Pick(4, 30); rep++ {
 		trial++
 		rec.prefix = rep%2 == 0
@@ -478,7 +553,7 @@ func main() {
 	// child processes
 	idx := 0
 	for rep := 0; rep < run.Pick(2, 12); rep++ {
-		for _, mode := range []string{"flush", "panic-string", "panic-error", "panic-struct", "panic-runtime", "panic-string+nodump"} {
+		for _, mode := range []string{"flush", "panic-string", "panic-error", "panic-struct", "panic-runtime", "panic-string+nodump", "panic-in-dispatch"} {
 			idx++
 			warm := 0
 			if mode == "flush" || rep%2 == 1 {
